@@ -72,6 +72,8 @@ func Parse(in *bytes.Buffer) (defs []*RouteDef, err error) {
 	var def *RouteDef
 	var i int
 	scanner := bufio.NewScanner(in)
+	// a command may be longer than the scanner's default limit of 64 KB
+	scanner.Buffer(nil, in.Len()+1)
 	for scanner.Scan() {
 		def, err = nil, nil
 		result := strings.TrimSpace(scanner.Text())
@@ -92,6 +94,11 @@ func Parse(in *bytes.Buffer) (defs []*RouteDef, err error) {
 			return nil, fmt.Errorf("line %d: %s", i, err)
 		}
 		defs = append(defs, def)
+	}
+	// the scanner stops without a word when it cannot go on: a text
+	// that was not read to its end is not a configuration
+	if err := scanner.Err(); err != nil {
+		return nil, err
 	}
 	return defs, nil
 }
